@@ -569,7 +569,10 @@ class _RequiredForecastingHorizonMixin:
         else:
             fh = check_fh(fh)
             if self.is_fitted:
-                if not np.array_equal(fh, self._fh):
+                if not (
+                    fh.is_relative == self._fh.is_relative
+                    and np.array_equal(fh, self._fh)
+                ):
                     # raise error if existing fh and new one don't match
                     raise ValueError(
                         "A different forecasting horizon `fh` has been "
